@@ -85,7 +85,7 @@ def run_history(ctx, rng, text, data, nsteps):
                     break
         elif x < 0.85:
             if ES.step_create(ctx, data, text, rng, value, "create", hist, rng.choice(["set", "get"])):
-                hist.append(["create"])
+                hist.append(["create", repr(value)])
                 done = True
         else:
             for _ in range(4):
@@ -155,8 +155,10 @@ def replay(w):
             self.v.append((m, w["summary"]))
     cx = _Ctx()
     if c.get("history"):
-        return {"violated": None, "note": "history witness: re-run the shard tuple in witness.gen to reproduce",
-                "history": c["history"]}
+        if not c.get("state_before"):
+            return {"violated": None, "note": "history witness without a recorded pre-state", "history": c["history"]}
+        data = yp.load(c["state_before"])
+        c = dict(c, doc=c["state_before"])
     import ast
     segs = [tuple(s) for s in c["segs"]]
     if "value" in c:
